@@ -105,3 +105,4 @@ mod imp {
 }
 
 pub use self::imp::*;
+pub use crate::simd::verif_scan::*;
